@@ -1,4 +1,5 @@
 SPECIFICATION Spec
 INVARIANT CheckEntry
+INVARIANT EmitTails
 INVARIANT Counted
 CHECK_DEADLOCK FALSE
